@@ -12,7 +12,7 @@ for id in "${ids[@]}"; do
   t0=$(date +%s)
   out=$(VERIF_BUILD_RACE=$race VERIF_MINIMISE_S=15 scripts/with_tree.sh -p $HERE/$d/patch.diff -- ./check $prop quick 2>&1); rc=$?
   tier=quick
-  if [ $rc -eq 0 ]; then
+  if [ $rc -eq 0 ] && [ -z "${QUICK_ONLY:-}" ]; then
     out=$(VERIF_BUILD_RACE=$race VERIF_MINIMISE_S=15 VERIF_BUDGET_S=900 scripts/with_tree.sh -p $HERE/$d/patch.diff -- ./check $prop thorough 2>&1); rc=$?; tier=thorough
   fi
   t1=$(date +%s)
